@@ -550,33 +550,43 @@ type unsupported string
 
 func (u unsupported) Error() string { return "unsupported: " + string(u) }
 
-// materialise produces the decimal digits of a symbolic numeral 0 <= n < 1000 (forks on the digit count).
+// materialise produces the decimal text of a symbolic integer: it forks on the sign and on the number of
+// digits (up to 10: every 32-bit magnitude; a wider magnitude is unsupported), the digits are terms.
 func materialise(ns numstr) sstr {
 	n := ns.n
 	w := n.w
 	c := func(v uint64) string { return bvConst(v, w) }
 	_, signed := kindWidth(n.gk)
-	lt := "bvult"
-	if signed {
-		if cur.cond(mkBool("(bvslt " + n.e + " " + c(0) + ")")) {
-			panic(unsupported("text of a negative symbolic numeral"))
-		}
+	mag := n.e
+	var out sstr
+	if signed && cur.cond(mkBool("(bvslt "+n.e+" "+c(0)+")")) {
+		mag = "(bvneg " + n.e + ")"
+		out = append(out, uint8('-'))
 	}
 	digit := func(e string) value {
 		return &sym{e: "(bvadd #x30 ((_ extract 7 0) " + e + "))", k: symBV, w: 8, gk: types.Uint8}
 	}
-	d2 := "(bvurem " + n.e + " " + c(10) + ")"
-	d1 := "(bvurem (bvudiv " + n.e + " " + c(10) + ") " + c(10) + ")"
-	d0 := "(bvudiv " + n.e + " " + c(100) + ")"
-	switch {
-	case cur.cond(mkBool("(" + lt + " " + n.e + " " + c(10) + ")")):
-		return sstr{digit(d2)}
-	case cur.cond(mkBool("(" + lt + " " + n.e + " " + c(100) + ")")):
-		return sstr{digit(d1), digit(d2)}
-	case cur.cond(mkBool("(" + lt + " " + n.e + " " + c(1000) + ")")):
-		return sstr{digit(d0), digit(d1), digit(d2)}
+	pow := uint64(10)
+	for nd := 1; nd <= 10; nd++ {
+		// does the magnitude have at most nd digits?  (unsigned comparison: the magnitude of the most negative
+		// value is its own two's complement and still compares correctly as an unsigned number)
+		fits := w <= 32 && nd == 10 || w < 64 && pow >= uint64(1)<<uint(w)
+		if !fits {
+			fits = cur.cond(mkBool("(bvult " + mag + " " + c(pow) + ")"))
+		}
+		if fits {
+			div := uint64(1)
+			for k := 1; k < nd; k++ {
+				div *= 10
+			}
+			for ; div >= 1; div /= 10 {
+				out = append(out, digit("(bvurem (bvudiv "+mag+" "+c(div)+") "+c(10)+")"))
+			}
+			return out
+		}
+		pow *= 10
 	}
-	panic(unsupported("text of a symbolic numeral >= 1000"))
+	panic(unsupported("text of a symbolic numeral of more than 10 digits"))
 }
 
 // symShift: x << y and x >> y when at least one operand is a term. Go: the result has x's type; a count of
